@@ -1,7 +1,7 @@
 (* C05 — property theorems (parametric in the registry, in base64 and in str.isspace).
    Nothing but statements closed by `exact`, each followed by Print Assumptions. *)
 From Coq Require Import ZArith List Bool.
-From S2T Require Import Lib.PyStr C05.Model C05.Proofs C05.Roundtrip.
+From S2T Require Import Lib.PyStr C05.Model C05.Proofs C05.Roundtrip C05.Tables.
 Import ListNotations.
 Open Scope N_scope.
 
@@ -136,3 +136,39 @@ Proof.
   - intro payload. unfold cli_json. destruct (encodable payload); [right | left]; reflexivity.
 Qed.
 Print Assumptions C05_cli_all_or_nothing.
+
+(* SAME OBJECT, TABLES INCLUDED.  If moreover every dict key is a str (and the keys of each dict are pairwise
+   distinct, as in any Python dict whose keys are all str), the restored object is the original itself up to
+   container kinds (tuple/set -> list, bytearray -> bytes, BytesIO rewound): every dict keeps its keys with
+   their types, its entries and their order, hence get_table()/get_dim() of row-dict sheets, unit texts and
+   payloads are those of the original. *)
+Theorem C05_roundtrip_same_object :
+  forall (enc : bytes -> str) (dec : str -> option bytes) (isspace : N -> bool) (R : registry),
+    (forall b, dec (enc b) = Some b) -> registry_wf R = true ->
+    forall c fl, let v := VData c fl in
+      has_type isspace R v TAny = true -> keys_not_markers v = true -> no_other v = true ->
+      keys_are_strings v = true -> dict_keys_distinct v = true ->
+      pipeline enc dec isspace R v = Some (norm v) /\ payloads (norm v) = payloads v.
+Proof.
+  intros enc dec isspace R Hlaw Hwf c fl v Ht Hm Ho Hk Hd.
+  destruct (roundtrip_pipeline enc dec isspace R Hlaw Hwf c fl Ht Hm Ho) as [w [Hp [Hw [_ [_ [Hpay _]]]]]].
+  fold v in Hp, Hw, Hpay. rewrite Hw in Hp, Hpay. rewrite (canon_norm v Hk Hd) in Hp, Hpay.
+  split; [exact Hp | exact (Hpay Hd)].
+Qed.
+Print Assumptions C05_roundtrip_same_object.
+
+(* REFUTED without keys_are_strings, for every registry and codec: a dict with an int key (rendered "2020")
+   at an unparameterised dict hint is well-typed, JSON-clean and free of marker keys; the deserialiser
+   succeeds but returns a dict keyed by the STRING "2020" — not the original (str() in the serialiser,
+   and json.dumps itself, stringify non-string keys). *)
+Theorem C05_nonstring_keys_refuted :
+  exists v T, forall (enc : bytes -> str) (dec : str -> option bytes) (isspace : N -> bool) (R : registry),
+    has_type isspace R v T = true /\ no_other v = true /\ keys_not_markers v = true
+    /\ keys_are_strings v = false
+    /\ exists w, deser dec isspace R false (serialize enc true v) T = Some w /\ w <> norm v.
+Proof.
+  exists (VDict [(KObj (s "2020"), VInt 1)]), (TDict None).
+  intros enc dec isspace R. repeat split; try reflexivity.
+  exists (VDict [(KStr (s "2020"), VInt 1)]). split; [reflexivity | discriminate].
+Qed.
+Print Assumptions C05_nonstring_keys_refuted.
